@@ -1426,15 +1426,24 @@ func ruleR04_7(p *Program, r *Report) {
 					if f.Y == nil || f.Op != token.GEQ {
 						continue
 					}
-					if _, sel, isL := fieldLoad(f.X); !isL || !strings.HasSuffix(sel, "bitsLen") {
-						continue
-					}
 					k, isK := constInt(f.Y)
 					if !isK || k <= 0 {
 						continue
 					}
-					byFact[f.X] = append(byFact[f.X], t)
-					kOf[f.X] = k
+					x := f.X
+					if _, sel, isL := fieldLoad(x); !isL || !strings.HasSuffix(sel, "bitsLen") {
+						// whole bytes available: bitsLen/8 >= k means bitsLen >= 8k
+						q, isQ := stripConv(x).(*ssa.BinOp)
+						if !isQ || !((q.Op == token.QUO && isConstVal(q.Y, 8)) || (q.Op == token.SHR && isConstVal(q.Y, 3))) {
+							continue
+						}
+						if _, sel2, isL2 := fieldLoad(stripConv(q.X)); !isL2 || !strings.HasSuffix(sel2, "bitsLen") {
+							continue
+						}
+						x, k = stripConv(q.X), k*8
+					}
+					byFact[x] = append(byFact[x], t)
+					kOf[x] = k
 				}
 			}
 			for ld, ts := range byFact {
